@@ -53,6 +53,31 @@ func c03Alone(kind int, chain []c03Step, msg string) string {
 	return w.lines[0]
 }
 
+
+// c03NoTime cuts the time field off a line: two records logged one after the other carry different instants on a
+// real clock (the engine's clock stub returns fixed instants), and the time is not what is being compared
+func c03NoTime(kind int, line string) string {
+	switch kind {
+	case 0: // "2006-01-02 15:04:05 [I] ..."
+		if len(line) >= 19 {
+			return line[19:]
+		}
+	case 1: // "time=2006-01-02T15:04:05Z level=..."
+		for i := 0; i < len(line); i++ {
+			if line[i] == ' ' {
+				return line[i:]
+			}
+		}
+	default: // {"time":"2006-01-02T15:04:05.000000006Z","level":...
+		for i := 9; i+1 < len(line); i++ {
+			if line[i] == '"' && line[i+1] == ',' {
+				return line[i:]
+			}
+		}
+	}
+	return line
+}
+
 func H_C03_tree() {
 	vxPoolMode(1)
 	kind := vxPick(3)
@@ -111,7 +136,7 @@ func H_C03_tree() {
 		w.lines = nil
 		nodes[i].Info("m", "call", 1)
 		vxAssert(len(w.lines) == 1, "C03: a record did not produce exactly one line")
-		vxAssert(w.lines[0] == c03Alone(kind, chains[i], "m"), "C03: a logger's line differs from the line of a logger built alone with the same chain (a derivation changed a parent or sibling)")
+		vxAssert(c03NoTime(kind, w.lines[0]) == c03NoTime(kind, c03Alone(kind, chains[i], "m")), "C03: a logger's line differs from the line of a logger built alone with the same chain (a derivation changed a parent or sibling)")
 	}
 	if len(pv) > 0 {
 		vxReach("parent with attributes and two children")
@@ -179,7 +204,7 @@ func H_C03_with_equiv() {
 		l.Info("m", b)
 		c03Root(kind, w2).Info("m", asb...)
 	}
-	vxAssert(len(w1.lines) == 1 && len(w2.lines) == 1 && w1.lines[0] == w2.lines[0], "C03: With() attributes do not appear as if passed at the call site")
+	vxAssert(len(w1.lines) == 1 && len(w2.lines) == 1 && c03NoTime(kind, w1.lines[0]) == c03NoTime(kind, w2.lines[0]), "C03: With() attributes do not appear as if passed at the call site")
 }
 
 // deriving stores only into the fresh clone (or a pooled scratch buffer), never into the parent
